@@ -6,7 +6,7 @@ LEVEL = 'proof'
 
 
 def run(rep):
-    enginep.engine_deductive(rep, enginep.DB_FUNS + enginep.COPY_FUNS + enginep.BUILTIN_REG)
+    enginep.engine_deductive(rep, enginep.DB_FUNS + enginep.COPY_FUNS + enginep.BUILTIN_REG + ['engine.YP.query'])
     q = rep.tier == 'quick'
     fw.standin(rep, 'difftest.py', ['run', 'F4', rep.seed, 1500 if q else 25000],
                'database histories (compiled code and API): answers and full database contents after every step vs list model',
